@@ -111,15 +111,18 @@ def prop_text(ctx, case):
         dbg, sid = S.expand_words(seed, 9)[0], S.expand_words(seed, 9)[1] | 1
         chunks = EV.global_string_events(tid, dbg, sid, raw)
         evs = weave(chunks, seed, tid, density)
+        again = seed % 3 == 0
+        if again:        # the id was announced before with another text (ids are reused; the empty string is a string too)
+            evs = EV.global_string_events(tid, dbg ^ 1, sid, b'an/earlier/text/under/the/same/id') + evs
         parser, traces = guard(feed, evs, [0, 0, -1, -2][seed % 4])
-        mine = [t for t in traces if isinstance(t, TraceStringGlobal)]
+        mine = [t for t in traces if isinstance(t, TraceStringGlobal)][1 if again else 0:]
         if len(mine) != 1:
             raise Violation('string-count', f'{len(mine)} string traces for one {n}-byte string ({len(chunks)} records)')
         t = mine[0]
         if t.vstr != text or t.str_id != sid or t.debugid != dbg:
             raise Violation('string-text', f'n={n}: got {t.vstr!r} id={t.str_id} dbg={t.debugid} expected {text!r} {sid} {dbg}')
         exp = {sid: text} if text else {}
-        if dict(parser.global_strings) != exp:
+        if not again and dict(parser.global_strings) != exp:
             raise Violation('global-strings-table', f'n={n}: table {dict(parser.global_strings)!r} expected {exp!r}')
     else:
         code = 'TRACE_STRING_THREADNAME' if kind == 'threadname' else 'TRACE_STRING_THREADNAME_PREV'
